@@ -102,12 +102,26 @@ def gen_case(rng, tier):
         elif site == 'let':
             expr = 'amount * 2' if injected else bad
             r['lets'] = [['lv', expr]]
-            r['match'] = '(%s) and (lv or not lv)' % r['match'] if rng.random() < 0.5 else r['match']
+            r['match'] = rng.choice(['(%s) and (lv or not lv)', '%s', '(%s) and not lv', '(%s) or lv']) % r['match']
         elif site == 'variable':
             expr = 'amount > 100' if injected else bad
             m['variables'] = [['is_large', expr]]
-            if rng.random() < 0.6:
+            # the variable is used positively, negatively, by (in)equality, or only copied into a field
+            use = rng.choice(['or', 'and-not', 'or-not', 'ne', 'eq-none', 'field', 'none'])
+            if use == 'or':
                 r['match'] = '(%s) or is_large' % r['match']
+            elif use == 'and-not':
+                r['match'] = '(%s) and not is_large' % r['match']
+            elif use == 'or-not':
+                r['match'] = '(%s) or not is_large' % r['match']
+            elif use == 'ne':
+                r['match'] = '(%s) and is_large != True' % r['match']
+            elif use == 'eq-none':
+                r['match'] = '(%s) or is_large == None' % r['match']
+            elif use == 'field':
+                r['fields'] = [['flag', 'is_large']]
+                if not r['category']:
+                    r['category'], r['subcategory'] = 'Misc', 'Other'
         elif site == 'field':
             expr = good_value if injected else bad
             r['fields'] = [['note', expr]]
